@@ -837,6 +837,38 @@ def run_props_timing(ctx, lines, expect):
                 lines.append(f"wref E{mycell} 1 88"); expect.append("ok")
                 lines.append(f"read E{mycell}"); expect.append(f"ok {seen},88")
                 lines.append(f"read {src}"); expect.append(f"ok 77,{back}")
+    # the copy rule also holds for the writes the library makes itself: an append merges the source's properties into the
+    # receiver's dictionary; siblings built from the same argument and the caller's mapping see that exactly when they share it
+    for name in ("AnalogWaveform", "ComplexWaveform", "Spectrum", "DigitalWaveform"):
+        mk = makers[name]
+        for argkind in ("dict", "epd"):
+            for flag in (True, False, "default"):
+                for touched in (False, True):
+                    arg = {"a": 1}
+                    if argkind == "epd":
+                        arg = ExtendedPropertyDictionary(arg)
+                    kw = dict(extended_properties=arg)
+                    if flag != "default":
+                        kw["copy_extended_properties"] = flag
+                    o, sib = mk(**kw), mk(**kw)
+                    if touched:
+                        _ = dict(o.extended_properties), dict(sib.extended_properties)
+                        o.extended_properties["t"] = 0
+                    other = mk(extended_properties={"probe": "p", "serial": 7, "NI_LineNames": "x, y"})
+                    r = outcome(o.append, other)
+                    share_expected = (flag is False and argkind == "epd")
+                    ctx.case(("props-merge", name, argkind, str(flag), touched))
+                    if r[0] != "ok" or "probe" not in o.extended_properties:
+                        ctx.violation(what="append did not merge the source's properties", cls=name, observed=show(r)[:120], required="merged")
+                        return
+                    leaked_sib = "probe" in sib.extended_properties
+                    leaked_arg = "probe" in arg
+                    if leaked_sib != share_expected or leaked_arg != share_expected:
+                        ctx.violation(what="properties merged by append reached another holder against the copy rule", cls=name, argument=argkind,
+                                      copy_extended_properties=str(flag), written_before=touched,
+                                      observed=f"sibling sees merged keys: {leaked_sib}, caller's mapping sees them: {leaked_arg}",
+                                      required=f"both {share_expected}")
+                        return
     t0 = dt.datetime(2025, 1, 1)
     for seqkind in ("list", "tuple"):
         for flag in (True, False, "default", "named"):
@@ -864,6 +896,67 @@ def run_props_timing(ctx, lines, expect):
                     return
 
 
+def run_byte_order(ctx):
+    """Arrays in the non-native byte order are arrays like any other: copy=False shares the caller's memory (or the call is refused),
+    copy=True does not; values are the same numbers.  Judged on the real objects only (the heap model has no byte order)."""
+    from nitypes.waveform import AnalogWaveform, ComplexWaveform, Spectrum
+    from nitypes.xy_data import XYData
+    n = 0
+    for cls, kind, dts in ((AnalogWaveform, "analog", [np.int16, np.int32, np.float32, np.float64]), (ComplexWaveform, "complex", [np.complex64, np.complex128]),
+                           (Spectrum, "spectrum", [np.float32, np.float64])):
+        for dty in dts:
+            for order in ("swapped", "native"):
+                for path in ("from_1d", "from_1d-dtype", "ctor", "from_2d", "load"):
+                    for copy in (False, True):
+                        vals = np.arange(1, 7).astype(dty)
+                        src = vals.astype(vals.dtype.newbyteorder()) if order == "swapped" else vals.copy()
+                        keep = src.copy()
+                        raw = lambda w: (w.data if kind == "spectrum" else w.raw_data)
+                        if path == "from_1d":
+                            o = outcome(lambda: [cls.from_array_1d(src, copy=copy)])
+                        elif path == "from_1d-dtype":
+                            o = outcome(lambda: [cls.from_array_1d(src, src.dtype, copy=copy)])
+                        elif path == "ctor":
+                            if copy:
+                                continue
+                            o = outcome(lambda: [cls(**{("data" if kind == "spectrum" else "raw_data"): src})])
+                        elif path == "from_2d":
+                            src = src.reshape(2, 3); keep = src.copy()
+                            o = outcome(lambda: list(cls.from_array_2d(src, copy=copy)))
+                        else:
+                            def ld():
+                                w = cls(0, src.dtype)
+                                w.load_data(src, copy=copy)
+                                return [w]
+                            o = outcome(ld)
+                        n += 1
+                        ctx.case(("byte-order", cls.__name__, str(np.dtype(dty)), order, path, copy))
+                        ctx.count("byte-order", order)
+                        if o[0] != "ok":
+                            if order == "native":
+                                ctx.violation(what="a native array was refused", cls=cls.__name__, path=path, copy=copy, dtype=str(src.dtype), observed=show(o)[:160], required="accepted")
+                            continue        # a refusal of the other byte order is not an aliasing question
+                        ws = o[1]
+                        got = np.concatenate([np.asarray(raw(w)).astype(dty) for w in ws]) if ws else np.array([], dty)
+                        shares = all(np.shares_memory(raw(w), src) for w in ws if raw(w).size)
+                        if not np.array_equal(got, keep.reshape(-1).astype(dty)):
+                            ctx.violation(what="values changed on the way in", cls=cls.__name__, path=path, copy=copy, dtype=str(src.dtype), observed=str(got)[:120], required=str(keep.reshape(-1))[:120])
+                        elif copy and shares:
+                            ctx.violation(what="copy=True shares memory with the source", cls=cls.__name__, path=path, dtype=str(src.dtype), observed="shares memory", required="independent")
+                        elif not copy and not shares:
+                            ctx.violation(what="copy=False made a hidden copy", cls=cls.__name__, path=path, dtype=str(src.dtype), observed="independent memory (writes do not reach the caller's array)",
+                                          required="shares the caller's buffer, or ValueError")
+                        elif not copy:
+                            # writes are visible both ways
+                            first = raw(ws[0])
+                            first[0] = 77
+                            src.reshape(-1)[1] = 55
+                            if src.reshape(-1)[0] != 77 or first[1] != 55:
+                                ctx.violation(what="copy=False: a write is not visible on the other side", cls=cls.__name__, path=path, dtype=str(src.dtype),
+                                              observed=f"source {src.reshape(-1)[:2]}, waveform {first[:2]}", required="[77 55] on both sides")
+    ctx.extra["byte_order_cases"] = n
+
+
 def run(ctx):
     import warnings
     lines, expect = [], []
@@ -875,6 +968,7 @@ def run(ctx):
             run_digital(ctx, tmpdir, lines, expect)
             run_xy(ctx, tmpdir, lines, expect)
             run_shim(ctx)
+            run_byte_order(ctx)
             run_props_timing(ctx, lines, expect)
         res = ctx.model(lines)
         if res is not None:
